@@ -15,7 +15,8 @@ RULE = (
     "built frames; eval(repr(m)).payload == m.payload. distinct = blake2b(payload); non-trivial = payload length > 2"
 )
 ASSUMPTIONS = ["reference CRC (two cross-checked implementations) and own header arithmetic are the oracle"]
-GATES = ["serialize_checked", "reparse_checked", "frame_roundtrip_checked", "repr_checked", "lengths_enumerated"]
+GATES = ["serialize_checked", "reparse_checked", "frame_roundtrip_checked", "repr_checked", "lengths_enumerated",
+         "alias_families"]
 
 NASTY = bytes([0x27, 0x22, 0x5C, 0x00, 0x0A, 0x0D, 0x7F, 0x80, 0xFF, 0x7B, 0x7D, 0x25])
 
@@ -102,6 +103,16 @@ def run(ctx):
                 p = p[:2] + bytes(rng.choice(NASTY) for _ in range(ln - 2))
             one(ctx, p, "unknown")
         ctx.hit("lengths_enumerated")
+    # families of payloads that are equal as big-endian integers (differ only by leading zero bytes) or
+    # equal up to trailing zero bytes, serialised one after the other in the same process
+    for _ in range(ctx.n(400, 8000)):
+        tail = bytes(rng.getrandbits(8) for _ in range(rng.choice((1, 2, 3, 17, 60))))
+        for k in (1, 2, 3, 4):
+            one(ctx, b"\x00" * k + tail, "leading-zeros")
+        base = streams.rand_unknown_payload(rng, rng.choice((2, 5, 30)))
+        for k in (0, 1, 2, 3):
+            one(ctx, base + b"\x00" * k, "trailing-zeros")
+        ctx.hit("alias_families")
     # defined identities at natural length and padded
     ids = [i for i in refmodel.identities() if refmodel.reachable(i)]
     for k, identity in enumerate(ids):
